@@ -43,7 +43,7 @@ LEVEL_NOTE = "Trusted: SHA-1 digests of array bytes+dtype+shape+flags; scikit-le
 TECHNIQUE = "runtime purity monitor (argument digests before/after every tapped call) plus recorded call histories checked offline (repeat, read-only, refit-vs-fresh, clone, rejection with paired control)"
 FLOORS = {
     "quick": {"eval:purity": 20000, "eval:repeat": 85, "eval:readonly": 85, "eval:history": 28, "eval:clone": 18, "eval:unfitted": 9,
-              "eval:rejection": 250, "eval:aliasing": 20, "eval:stale_state": 75, "eval:result_ownership": 40, "eval:reconfigure": 85, "eval:error_path": 30, "distinct_nontrivial": 5000},
+              "eval:rejection": 250, "eval:aliasing": 20, "eval:stale_state": 75, "eval:result_ownership": 40, "eval:reconfigure": 85, "eval:error_path": 30, "eval:param_fidelity": 24, "distinct_nontrivial": 5000},
     "thorough": {"eval:purity": 600000, "eval:repeat": 2800, "eval:readonly": 2800, "eval:history": 1100, "eval:clone": 750, "eval:rejection": 8000,
                  "eval:aliasing": 750, "distinct_nontrivial": 100000},
 }
@@ -582,6 +582,7 @@ def run_case(run, tap, stream, index, rng):
                 outs = [core.digest(t.filter(coords, data, w), flags=False) for t in twins]
                 if any(o != ref_out for o in outs):
                     run.violation("clone", "%s: a clone / rebuilt twin behaves differently from the original" % name, {"estimator": name}, key="clone:" + name)
+            _param_fidelity(run, rng, vd, sklearn.base.clone)
             run.sample("clone", {"estimator": name})
         elif stream == "unfitted":
             coords, data, weights = _dataset(rng)
@@ -600,6 +601,26 @@ def run_case(run, tap, stream, index, rng):
                             run.count("unfitted_raised:" + name)
                             continue
                         run.violation("unfitted", "%s.%s before fit returned normally" % (name, method), {"estimator": name, "method": method}, key="unfitted:" + name)
+            # composites assembled from parts that were fitted on their own: the composite itself was never fitted
+            parts = [vd.Trend(1).fit(coords, data), vd.Spline(damping=1e-3).fit(coords, data), vd.KNeighbors().fit(coords, data)]
+            composites = [("Chain_of_fitted_steps", vd.Chain([("a", parts[0]), ("b", parts[1])]), query),
+                          ("Chain_of_fitted_steps_knn", vd.Chain([("k", parts[2])]), query),
+                          ("Vector_of_fitted_components", vd.Vector([parts[0], parts[2]]), query),
+                          ("Chain_nested_fitted", vd.Chain([("inner", vd.Chain([("a", parts[0])])), ("b", parts[1])]), query)]
+            for name, comp, q in composites:
+                for method in ("predict", "grid", "profile"):
+                    run.evaluated("unfitted")
+                    try:
+                        if method == "predict":
+                            comp.predict(q)
+                        elif method == "grid":
+                            comp.grid(region=[0, 1, 0, 1], shape=(3, 3))
+                        else:
+                            comp.profile((0.0, 0.0), (1.0, 1.0), 4)
+                    except Exception:  # noqa: BLE001
+                        run.count("unfitted_raised:" + name)
+                        continue
+                    run.violation("unfitted", "%s.%s before the composite was fitted returned normally" % (name, method), {"estimator": name, "method": method}, key="unfitted:" + name)
             run.mark_nontrivial("unfitted", index)
         elif stream == "rejection":
             _rejection(run, rng, vd)
@@ -639,6 +660,75 @@ def run_case(run, tap, stream, index, rng):
 
 
 # ----------------------------------------------------------------------
+def _param_fidelity(run, rng, vd, clone):
+    """Every constructor parameter, set to a NON-default value, is reported by get_params and survives clone / rebuild with identical behaviour."""
+    import inspect
+
+    import sklearn.model_selection as skms
+
+    coords, data, weights = _dataset(rng, n=24, weights=True)
+    vcoords, vdata, vweights = _dataset(rng, n=24, ncomp=2, weights=True)
+    east, north = coords
+    extra = east * 0.5 + 3.0
+    span = float(min(np.ptp(east), np.ptp(north)))
+    region = [float(east.min()) - 0.1 * span, float(east.max()) + 0.2 * span, float(north.min()) - 0.3 * span, float(north.max()) + 0.1 * span]
+    forces = (east[:6].copy() + 0.05 * span, north[:6].copy())
+    vforces = (np.asarray(vcoords[0]).ravel()[:6].copy(), np.asarray(vcoords[1]).ravel()[:6].copy() + 1.0)
+    query = _query(rng, coords)
+    vquery = _query(rng, vcoords)
+    kf3 = skms.KFold(n_splits=3, shuffle=True, random_state=1)
+
+    def fp(est):
+        return est.fit(coords, data, weights).predict(query)
+
+    def vfp(est):
+        return est.fit(vcoords, vdata, vweights).predict(vquery)
+
+    def flt(est):
+        return est.filter((east, north, extra), data, weights)
+
+    table = [
+        (vd.Spline, dict(mindist=0.1 * span, damping=1e-3, force_coords=forces, engine="numpy"), fp),
+        (vd.VectorSpline2D, dict(poisson=0.3, mindist=2 * span, damping=1e-2, force_coords=vforces, engine="numpy"), vfp),
+        (vd.Trend, dict(degree=2), fp),
+        (vd.KNeighbors, dict(k=3, reduction=np.median), fp),
+        (vd.Linear, dict(rescale=True), fp),
+        (vd.Cubic, dict(rescale=True), fp),
+        (vd.ScipyGridder, dict(method="linear", extra_args={"rescale": True}), fp),
+        (vd.SplineCV, dict(mindists=[0.1 * span], dampings=(1e-3, 1e-1), force_coords=forces, engine="numpy", cv=kf3, delayed=True, scoring="neg_mean_squared_error"), fp),
+        (vd.BlockReduce, dict(reduction=np.average, spacing=span / 3, region=region, adjust="region", center_coordinates=True, drop_coords=False), flt),
+        (vd.BlockReduce, dict(reduction=np.average, shape=(2, 3), drop_coords=False), flt),
+        (vd.BlockMean, dict(spacing=span / 3, region=region, adjust="region", center_coordinates=True, uncertainty=True, drop_coords=False), flt),
+        (vd.BlockMean, dict(shape=(3, 2), drop_coords=False), flt),
+        (vd.Chain, dict(steps=[("t", vd.Trend(2)), ("k", vd.KNeighbors(k=2))]), fp),
+        (vd.Vector, dict(components=[vd.Trend(2), vd.KNeighbors(k=2)]), vfp),
+        (vd.synthetic.CheckerBoard, dict(amplitude=3.0, region=tuple(region), w_east=span / 2, w_north=span / 5), lambda est: est.predict(coords)),
+    ]
+    for cls, params, observe in table:
+        name = cls.__name__
+        est = cls(**params)
+        run.evaluated("param_fidelity")
+        run.count("param_fidelity:" + name)
+        declared = [p for p in inspect.signature(cls.__init__).parameters if p not in ("self",)]
+        reported = est.get_params(deep=False)
+        problems = []
+        for key, value in params.items():
+            if key not in reported:
+                problems.append("get_params() does not report constructor parameter %r" % key)
+            elif reported[key] is not value and not (np.isscalar(value) and reported[key] == value):
+                problems.append("get_params()[%r] is not the value given to the constructor" % key)
+        if any(p.startswith("*") or "kwargs" in p for p in declared) or not set(params) <= set(declared):
+            problems.append("constructor parameters %s are not named parameters of %s.__init__ (%s)" % (sorted(set(params) - set(declared)), name, declared))
+        if not problems:
+            ref = _outcome(lambda a: observe(est), None)
+            twins = {"clone": clone(cls(**params)), "rebuilt from get_params": cls(**cls(**params).get_params(deep=False))}
+            for label, twin in twins.items():
+                if _outcome(lambda a: observe(twin), None) != ref:
+                    problems.append("the %s twin behaves differently from the original" % label)
+        for problem in problems:
+            run.violation("param_fidelity", "%s(%s): %s" % (name, ", ".join(sorted(params)), problem), {"class": name, "parameters": repr(params)[:400]}, key="param-fidelity:" + name)
+
+
 def _reconfigure(run, rng, vd):
     """
     Histories in which an object is re-configured or hits an error between uses. An estimator whose parameters were changed with
